@@ -236,9 +236,6 @@ Proof.
 Qed.
 
 (* the hypothesis as an executable check *)
-Definition fw_ok_b (g : graph) : bool :=
-  forallb (fun n => n_flat n || n_root n ||
-                    match n_first_worker n with Some v => forallb (Nat.eqb v) (n_owners n) | None => true end) (g_nodes g).
 Lemma fw_ok_b_sound g : fw_ok_b g = true -> fw_ok g.
 Proof.
   unfold fw_ok_b. intros H j v w Hv Ho Hf Hr. rewrite forallb_forall in H.
